@@ -64,7 +64,7 @@ type c13Run struct {
 	idx  int64
 	ops  []aop
 	viol bool
-	nForged, nCorrective, nReplies, nRejects, nCycles int
+	nForged, nCorrective, nReplies, nRejects, nCycles, nRelayed int
 }
 
 func (r *c13Run) history() {
@@ -140,6 +140,20 @@ func (r *c13Run) history() {
 				_, on := hunted[string(tgt.MAC)]
 				ev.extra = fmt.Sprint(on)
 				feed(arpFrom(tgt, 1, tgt.IP, nic.RouterIP, refdec.MAC{}))
+			case "req-router-relayed":
+				// a request for the router relayed by a bridge/repeater: Ethernet source and ARP sender hardware address differ.
+				// Whatever the handler does with it, forged packets may only ever be addressed to hunted hosts (rule R1)
+				asker := c13Targets[(o.T+1+o.P)%len(c13Targets)]
+				if string(asker.MAC) == string(tgt.MAC) {
+					asker = c13Targets[(o.T+1)%len(c13Targets)]
+				}
+				_, onE := hunted[string(tgt.MAC)]
+				_, onA := hunted[string(asker.MAC)]
+				ev.extra = fmt.Sprintf("ether-src-hunted=%v arp-sender=%x hunted=%v", onE, []byte(asker.MAC), onA)
+				if onE != onA {
+					r.nRelayed++
+				}
+				feed(refdec.Ether(bcastMAC, toMAC(tgt.MAC), 0x0806, 0, refdec.ARP(refdec.ARPPkt{HType: 1, PType: 0x0800, HLen: 6, PLen: 4, Op: 1, SHA: toMAC(asker.MAC), SPA: asker.IP, TPA: nic.RouterIP})))
 			case "req-other":
 				feed(arpFrom(tgt, 1, tgt.IP, c13Targets[(o.T+1)%len(c13Targets)].IP, refdec.MAC{}))
 			case "probe":
@@ -323,6 +337,13 @@ func (r *c13Run) history() {
 				fail(fmt.Sprintf("arp:probe-reject:%d-for-%d", n, want), fmt.Sprintf("%d probe-reject replies for probe of %v by %x holding offer %v", n, probed, e.mac, offer))
 			}
 			r.nRejects += n
+		case "req-router-relayed":
+			// no count is demanded here; confinement (R1) already judged every forged frame
+			for _, f := range got {
+				if f.class != "forged-reply" {
+					fail("arp:unsolicited-reply:"+e.kind, fmt.Sprintf("%s triggered by a relayed request for the router", f.class))
+				}
+			}
 		default:
 			if len(got) > 0 {
 				fail("arp:unsolicited-reply:"+e.kind, fmt.Sprintf("%d spoof/reject replies triggered by %s", len(got), e.kind))
@@ -412,7 +433,11 @@ func randAop(r *rand.Rand) aop {
 	case k < 12:
 		o.K = "req-router"
 	case k < 13:
-		o.K = "req-other"
+		if r.Intn(2) == 0 {
+			o.K = "req-router-relayed"
+		} else {
+			o.K = "req-other"
+		}
 	case k < 15:
 		o.K = "probe"
 	case k < 16:
@@ -446,6 +471,7 @@ func runC13(c *wk.Ctx) {
 		c.Eval()
 		run := &c13Run{c: c, idx: idx, ops: ops}
 		runBubble(c, idx, func() { run.history() })
+		c.Obs("relayed_requests_mixed_hunt_state", int64(run.nRelayed))
 		if !run.viol && run.nForged > 0 && run.nCorrective > 0 {
 			c.Class(fmt.Sprintf("forged~%d corrective~%d replies=%v rejects=%v", min(run.nForged/4, 6), min(run.nCorrective, 3), run.nReplies > 0, run.nRejects > 0))
 		}
